@@ -197,7 +197,11 @@ impl Evaluator {
                 .any(|segment| match segment {
                     InterpolationSegment::String(_) => false,
                     InterpolationSegment::Value(value) => {
-                        self.has_side_effects(value.get_expression())
+                        let expression = value.get_expression();
+                        // converting a value to a string can call its `__tostring` metamethod
+                        self.has_side_effects(expression)
+                            || (!self.pure_metamethods
+                                && self.maybe_metatable(&self.evaluate(expression)))
                     }
                 }),
             Expression::TypeCast(type_cast) => self.has_side_effects(type_cast.get_expression()),
